@@ -31,14 +31,17 @@ JUv(r) ==
                         \A a \in 1..3 : AbsC(6 * T.H * (pr.to3.p[a] - QX * T.t[a]) - QX * w[a]) <= 6 * T.H * 6
                      \* normal = +- R (0,0,1)
                      /\ (DirRotated(T, <<0, 0, QNr>>, pr.to3.n, 6) \/ DirRotated(T, <<0, 0, -QNr>>, pr.to3.n, 6))
-        BackOK(pr) == /\ pr.back.some
-                      /\ AbsC(6 * pr.back.uv[1] - QU * Exact6(pr)[1]) <= 6 * 6 /\ AbsC(6 * pr.back.uv[2] - QU * Exact6(pr)[2]) <= 6 * 6
-                      /\ AbsC(pr.back.depth) <= 6 IN
+        BackIs(pr, b) == /\ b.some
+                         /\ AbsC(6 * b.uv[1] - QU * Exact6(pr)[1]) <= 6 * 6 /\ AbsC(6 * b.uv[2] - QU * Exact6(pr)[2]) <= 6 * 6
+                         /\ AbsC(b.depth) <= 6
+        BackOK(pr) == BackIs(pr, pr.back) IN
     /\ Clause(i, "C20.uv.ok", o.ok)
     /\ o.ok =>
         /\ Clause(i, "C20.uv.finite", o.finite)
         /\ ClauseAll(i, "C20.uv.to_3d", 1..Len(o.probes), LAMBDA k : To3OK(o.probes[k]))
         /\ ClauseAll(i, "C20.uv.round_trip", 1..Len(o.probes), LAMBDA k : o.probes[k].to3.some => BackOK(o.probes[k]))
+        \* the same round trip with the point given in the lattice frame and the pose handed over as `transform`
+        /\ ClauseAll(i, "C20.uv.round_trip_with_transform", 1..Len(o.probes), LAMBDA k : o.probes[k].to3.some => BackIs(o.probes[k], o.probes[k].back_t))
 
 Judge(r) ==
     /\ Sane(i, r)
